@@ -159,7 +159,9 @@ class Life:
 
         ctx.sample = {"campaign": self.name, "pattern": pattern, "start": text, "syntax": project["syntax"],
                       "files": {f["path"]: f["patterns"] for f in project["files"]}, "ops": case["ops"][:4]}
-        if self.grep_pep and pep440.is_pep440(text):
+        if self.grep_pep and tc.facts_for(tree, state, None, {}, pattern)["week53"]:
+            ctx.count("steered_week53")  # week 53 is the known finding of C02/C05, not C15's subject
+        elif self.grep_pep and pep440.is_pep440(text):
             snap0 = invoker.snapshot(w.dir)
             f0 = {"pattern": pattern, "nondot_sep": not layouts.pep_friendly(pattern),
                   "bld_zero": "bid" in state and int(state["bid"]) == 0, "initial": True}
